@@ -1,7 +1,7 @@
 """C02 - Every returned future obeys the concurrent.futures.Future protocol."""
 import random
 
-from . import c05, c08
+from . import c05, c08, chain
 
 TRACE = "FutureObsTrace"
 ENTRIES = ["sync", "pool", "map", "flat_map", "retry", "poll", "throttle", "timeout", "cos",
@@ -62,4 +62,7 @@ def run(ck):
                                                ["PollExecutor-default", 10000], ["can0", 10000]]],
                           "gran": "line", "facts": {"entry": "poll", "how": "value", "directed": True}})
     ck.run_and_validate(tasks, TRACE, nontrivial=lambda t, r: True)
+    # chains of derived futures (spec/FutureChain.tla): model checked, TLC behaviours replayed in real map-executor
+    # stacks at the granularity of the futures' locks, random executions judged by ChainObs (= FutureObs per layer + chain)
+    chain.run(ck, quick, rng)
     ck.assumptions += ["one future per execution, 20 entry points, clients: <=2 cancellers, <=2 callback adders, <=2 waiters"]
